@@ -20,7 +20,7 @@ CFG = {
     "theory_files": ["theories/Geom/SdfSpec.v", "theories/Geom/SdfBase.v", "theories/Geom/SdfProofs.v",
                      "theories/Geom/SdfCapsuleProofs.v", "theories/Geom/SdfBoxProofs.v",
                      "theories/Geom/SdfConeProofs.v", "theories/Geom/SdfScaleProofs.v",
-                     "theories/Geom/SdfTotalProofs.v", "theories/Geom/SdfVLineProofs.v"],
+                     "theories/Geom/SdfTotalProofs.v", "theories/Geom/SdfVLineProofs.v", "theories/Geom/SdfTreeProofs.v"],
     "level_text": "Coq theorems over the real numbers about the Gallina definitions that tools/go2coq generates from "
                   "math/sdf/*.go and geometry.Line3D.ClosestPointOnLine on every run: sign, exact Euclidean distance and "
                   "the 1-Lipschitz bound for sphere, plane, capsule and box; rounded box and rounded cylinder sign + "
